@@ -495,7 +495,11 @@ func showInJS(env *env, out io.Writer, value any) error {
 		_, err := w.WriteString(string(v.JS(env)))
 		return err
 	case time.Time:
-		_, err := w.WriteString(showTimeInJS(v))
+		s, err := showTimeInJS(v)
+		if err != nil {
+			return err
+		}
+		_, err = w.WriteString(s)
 		return err
 	case error:
 		value = v.Error()
@@ -955,11 +959,12 @@ func showInMarkdownCodeBlock(env *env, out io.Writer, value any, spaces bool) er
 	return markdownCodeBlockEscape(w, s, spaces)
 }
 
-// showTimeInJS shows a value of type time.Time in a JavaScript context.
-func showTimeInJS(tt time.Time) string {
+// showTimeInJS shows a value of type time.Time in a JavaScript context. It
+// returns an error if the year of tt is not representable in JavaScript.
+func showTimeInJS(tt time.Time) (string, error) {
 	y := tt.Year()
 	if y < -999999 || y > 999999 {
-		panic("not representable year in JavaScript")
+		return "", fmt.Errorf("cannot show time value: year %d is not representable in JavaScript", y)
 	}
 	ms := int64(tt.Nanosecond()) / int64(time.Millisecond)
 	name, offset := tt.Zone()
@@ -968,7 +973,7 @@ func showTimeInJS(tt time.Time) string {
 		if y < 0 || y > 9999 {
 			format = `new Date("%+0.6d-%0.2d-%0.2dT%0.2d:%0.2d:%0.2d.%0.3dZ")`
 		}
-		return fmt.Sprintf(format, y, tt.Month(), tt.Day(), tt.Hour(), tt.Minute(), tt.Second(), ms)
+		return fmt.Sprintf(format, y, tt.Month(), tt.Day(), tt.Hour(), tt.Minute(), tt.Second(), ms), nil
 	}
 	zone := offset / 60
 	sign := '+'
@@ -981,7 +986,7 @@ func showTimeInJS(tt time.Time) string {
 	if y < 0 || y > 9999 {
 		format = `new Date("%+0.6d-%0.2d-%0.2dT%0.2d:%0.2d:%0.2d.%0.3d%c%0.2d:%0.2d")`
 	}
-	return fmt.Sprintf(format, y, tt.Month(), tt.Day(), tt.Hour(), tt.Minute(), tt.Second(), ms, sign, h, m)
+	return fmt.Sprintf(format, y, tt.Month(), tt.Day(), tt.Hour(), tt.Minute(), tt.Second(), ms, sign, h, m), nil
 }
 
 // parseTagValue parses a 'json' tag value and returns its name and whether
